@@ -157,6 +157,11 @@ def scan_witness(trace, log, rows, cols, checks, tries=6000):
         lx0 = rnd.uniform(0, 1200)
         lx1 = lx0 + rnd.uniform(-1.5, 1.5) * rows
         w0, w1 = cols + rnd.uniform(-0.9, 0.9), cols + rnd.uniform(-0.9, 0.9)
+        if _ % 2:
+            # converging edges (towards an apex just below the last row): extrapolated one row further the edges have crossed
+            y1 = y0 + rows + rnd.uniform(-0.95, 0.45)
+            w0, w1 = rnd.uniform(cols - 0.9, 3.0 * cols), rnd.uniform(0.0, 1.0)
+            lx1 = lx0 + rnd.uniform(0.0, 1.0) * (w0 - w1)
         p = {"y0": y0, "y1": y1, "lx0": lx0, "lx1": lx1, "rx0": lx0 + w0, "rx1": lx1 + w1,
              "gx": rnd.uniform(-3e-4, 3e-4), "gy": rnd.uniform(-3e-4, 3e-4), "gc": 1.0,
              "fx": rnd.uniform(-1, 1), "fy": rnd.uniform(-1, 1), "fc": rnd.uniform(-1, 1)}
